@@ -1,18 +1,25 @@
 #!/bin/sh
-# Apply a seeded change to /repo, run the given checks (quick), undo the change.
+# Run the given checks against a seeded change WITHOUT touching /repo's working tree: the change is applied to a scratch worktree of
+# /repo's HEAD (plus /repo's uncommitted changes, if any) and the checks are pointed at it through VERIF_REPO.  (/repo's working tree is
+# what background `vp run`s read: applying a seeded change there while one is running contaminates it.)
 # usage: tools/try_mutant.sh <patch.diff> <tier> C03 [C02 ...]
 P=$1; TIER=$2; shift 2
 cd "$(dirname "$0")/.."
-git -C /repo diff --quiet || { echo "repo working tree is not clean"; exit 2; }
-git -C /repo apply "$P" || { echo "patch does not apply"; exit 2; }
-trap 'git -C /repo checkout -- . ; git -C /repo clean -fdq -- bxdecay0 programs extensions resources' EXIT
+W=$(mktemp -d /tmp/mutrepo.XXXXXX)
+rmdir "$W"
+git -C /repo worktree add --detach -f "$W" HEAD > /dev/null 2>&1 || { echo "cannot create scratch worktree"; exit 2; }
+trap 'git -C /repo worktree remove --force "$W" > /dev/null 2>&1; rm -rf "$W"; git -C /repo worktree prune' EXIT
+if ! git -C /repo diff --quiet; then git -C /repo diff | git -C "$W" apply || { echo "cannot carry /repo's uncommitted changes over"; exit 2; }; fi
+git -C "$W" apply "$P" || { echo "patch does not apply"; exit 2; }
+VERIF_REPO=$W; export VERIF_REPO
 # the evidence of a run against a seeded change must never replace the evidence of the real tree
 VERIF_EVIDENCE_DIR=$(mktemp -d /tmp/mutant_evidence.XXXXXX); export VERIF_EVIDENCE_DIR
 for c in "$@"; do
   n=$(echo $c | tr -d C)
-  python3-vt checks/c$n.py --tier $TIER > /tmp/mutant_$c.log 2>&1
+  python3-vt checks/c$n.py --tier $TIER > /tmp/mutant_$c.$$.log 2>&1
   rc=$?
-  echo "== $c rc=$rc violations=$(grep -c '^VIOLATION' /tmp/mutant_$c.log)"
-  grep -A1 '^VIOLATION' /tmp/mutant_$c.log | grep 'key=' | head -4 | cut -c1-260
+  echo "== $c rc=$rc violations=$(grep -c '^VIOLATION' /tmp/mutant_$c.$$.log)"
+  grep -A1 '^VIOLATION' /tmp/mutant_$c.$$.log | grep 'key=' | head -4 | cut -c1-260
+  rm -f /tmp/mutant_$c.$$.log
 done
 rm -rf "$VERIF_EVIDENCE_DIR"
